@@ -39,7 +39,7 @@ theorem vOptionalValue_err (hfp : FpAgree) (v : Option String) (prim : String) (
     obtain ⟨h1, rfl⟩ := h
     simp [litViol, h1, Diag.viol]
 
-theorem vConstantValue_err (hfp : FpAgree) (types : List Elem) (hpl : CharEnumsPlain types) (p : Path) (t : TypeDef)
+theorem vConstantValue_err (hfp : FpAgree) (types : List Elem) (p : Path) (t : TypeDef)
     (hp : isPrim t.prim = true) (d : Diag) (h : vConstantValue types p t = .error d) : d.viol ∈ constViols types p t := by
   unfold vConstantValue at h
   unfold constViols
@@ -67,7 +67,7 @@ theorem vConstantValue_err (hfp : FpAgree) (types : List Elem) (hpl : CharEnumsP
             obtain ⟨n, enc, v⟩ := x
             simp only [hr, bind, Except.bind, need_err] at h
             obtain ⟨h2, rfl⟩ := h
-            rw [valueRefFits_eq hfp types hpl r n enc t.prim v hr hp] at h2
+            rw [valueRefFits_eq hfp types r n enc t.prim v hr hp] at h2
             simp [h2, Diag.viol]
       | none =>
         cases hc : t.constValue with
@@ -92,7 +92,7 @@ theorem vConstantValue_err (hfp : FpAgree) (types : List Elem) (hpl : CharEnumsP
       simp only [Bool.not_eq_eq_eq_not, Bool.not_false] at h2
       simp [h2, Diag.viol]
 
-theorem vType_err (hfp : FpAgree) (types : List Elem) (hpl : CharEnumsPlain types) (p : Path) (t : TypeDef) (d : Diag)
+theorem vType_err (hfp : FpAgree) (types : List Elem) (p : Path) (t : TypeDef) (d : Diag)
     (h : vType types p t = .error d) :
     (symbolicName t.name = false ∧ d.viol = (.invalidName, p)) ∨ d.viol ∈ typeViols types p t := by
   unfold vType at h
@@ -108,7 +108,7 @@ theorem vType_err (hfp : FpAgree) (types : List Elem) (hpl : CharEnumsPlain type
       rcases (bind_err _ _ d).mp h with h | ⟨_, _, h⟩
       · by_cases hc : (t.presence == Presence.constant) = true
         · simp only [hc, ↓reduceIte] at h ⊢
-          exact vConstantValue_err hfp types hpl p t hp d h
+          exact vConstantValue_err hfp types p t hp d h
         · simp only [hc, Bool.false_eq_true, ↓reduceIte] at h ⊢
           by_cases hl : (t.length == 1) = true
           · simp only [hl, ↓reduceIte] at h ⊢
@@ -279,10 +279,10 @@ def TypesBad (types : List Elem) (w : Viol) : Prop :=
   ∃ T ∈ types, ∃ q x, (q, x) ∈ subElems ["types", T.name] T ∧ ElemBad types q x w
 
 section ErrSound
-variable (hfp : FpAgree) (types : List Elem) (hpl : CharEnumsPlain types) (kf : Nat) (hkf : kf ≤ types.length)
+variable (hfp : FpAgree) (types : List Elem) (kf : Nat) (hkf : kf ≤ types.length)
   (ih : ∀ vis T d, T ∈ types → vPublic types kf vis T = .error d →
     d.cls = .cyclicReference ∨ d.cls = .fuelExhausted ∨ TypesBad types d.viol)
-include hfp hpl hkf ih
+include hfp hkf ih
 
 mutual
   theorem vElemWith_err : ∀ (e : Elem) (vis : List String) (p : Path) (T : Elem) (d : Diag),
@@ -292,7 +292,7 @@ mutual
     | .type t, vis, p, T, d, hT, hm, h => by
       simp only [vElemWith] at h
       refine Or.inr (Or.inr ⟨T, hT, p, _, hm, ?_⟩)
-      rcases vType_err hfp types hpl p t d h with h1 | h1
+      rcases vType_err hfp types p t d h with h1 | h1
       · exact Or.inl h1
       · exact Or.inr (Or.inr (by simpa [elemViols] using h1))
     | .enum n enc o vs a, vis, p, T, d, hT, hm, h => by
@@ -380,7 +380,7 @@ mutual
 end
 end ErrSound
 
-theorem vPublic_err (hfp : FpAgree) (types : List Elem) (hpl : CharEnumsPlain types) :
+theorem vPublic_err (hfp : FpAgree) (types : List Elem) :
     ∀ kf, kf ≤ types.length + 1 → ∀ vis T d, T ∈ types → vPublic types kf vis T = .error d →
       d.cls = .cyclicReference ∨ d.cls = .fuelExhausted ∨ TypesBad types d.viol := by
   intro kf
@@ -392,7 +392,7 @@ theorem vPublic_err (hfp : FpAgree) (types : List Elem) (hpl : CharEnumsPlain ty
   | succ kf ih =>
     intro hk vis T d hT h
     simp only [vPublic] at h
-    exact vElemWith_err hfp types hpl kf (by omega) (fun vis T d hT h => ih (by omega) vis T d hT h) T vis _ T d hT
+    exact vElemWith_err hfp types kf (by omega) (fun vis T d hT h => ih (by omega) vis T d hT h) T vis _ T d hT
       (subElems_self _ _) h
 
 
@@ -457,10 +457,10 @@ theorem cycle_no_unfold (types : List Elem) (x : Elem) (ty : String) (hr : Reach
 
 /-! ### `validate_types` -/
 
-theorem typesBad_enforced (s : SchemaDef) (w : Viol) (h : TypesBad s.types w) : w ∈ enforcedViolations s := by
+theorem typesBad_enforced (s : SchemaDef) (w : Viol) (h : TypesBad s.types w) : w ∈ violations s := by
   obtain ⟨T, hT, q, x, hm, hbad⟩ := h
   have hall : (q, x) ∈ allElems s := by unfold allElems; exact List.mem_flatMap.mpr ⟨T, hT, hm⟩
-  unfold enforcedViolations
+  unfold violations
   have hname : ∀ (n : String) (p : Path), (n, p) ∈ entityNames s → symbolicName n = false →
       (DiagClass.invalidName, p) ∈ nameViols s := by
     intro n p hm' hs
@@ -489,9 +489,9 @@ theorem typesBad_enforced (s : SchemaDef) (w : Viol) (h : TypesBad s.types w) : 
     exact Or.inl (Or.inl (Or.inl (Or.inr (List.mem_flatMap.mpr ⟨(q, x), hall, hel⟩))))
 
 /-- every candidate first diagnostic of `validate_types` is a violation the specification lists -/
-theorem vRoot_sound (hfp : FpAgree) (s : SchemaDef) (hpl : CharEnumsPlain s.types) (hnd : (lowerNames s.types).Nodup)
-    (t : Elem) (ht : t ∈ s.types) (d : Diag) (h : vRoot s.types t = .error d) : d.viol ∈ enforcedViolations s := by
-  rcases vPublic_err hfp s.types hpl _ (Nat.le_refl _) _ t d ht h with hc | hf | hb
+theorem vRoot_sound (hfp : FpAgree) (s : SchemaDef) (hnd : (lowerNames s.types).Nodup)
+    (t : Elem) (ht : t ∈ s.types) (d : Diag) (h : vRoot s.types t = .error d) : d.viol ∈ violations s := by
+  rcases vPublic_err hfp s.types _ (Nat.le_refl _) _ t d ht h with hc | hf | hb
   · obtain ⟨x, ty, hx, hloc, hr, hfx⟩ := cyclic_diag_sound s.types hnd t ht d h hc
     have hcyc : (DiagClass.cyclicReference, typePath x) ∈ cycleViols s := by
       unfold cycleViols
@@ -501,7 +501,7 @@ theorem vRoot_sound (hfp : FpAgree) (s : SchemaDef) (hpl : CharEnumsPlain s.type
     have hd : d.viol = (DiagClass.cyclicReference, typePath x) := by
       simp [Diag.viol, hc, hloc, typePath]
     rw [hd]
-    unfold enforcedViolations
+    unfold violations
     simp only [List.mem_append]
     exact Or.inl (Or.inl (Or.inr hcyc))
   · exact absurd hf (fuel_never_exhausted s.types t ht d h)
@@ -533,19 +533,19 @@ theorem firstErrors_mem {α} (f : α → R Nat) (l : List α) (d : Diag) (h : d 
     subst hfx
     exact ⟨x, hx, hf⟩
 
-theorem typesPhase_sound (hfp : FpAgree) (s : SchemaDef) (hpl : CharEnumsPlain s.types)
+theorem typesPhase_sound (hfp : FpAgree) (s : SchemaDef)
     (hnd : (lowerNames s.types).Nodup) (d : Diag) (h : typesPhase s = .error d) :
-    d.viol ∈ enforcedViolations s ∧ ∀ w ∈ d.alts, w ∈ enforcedViolations s := by
+    d.viol ∈ violations s ∧ ∀ w ∈ d.alts, w ∈ violations s := by
   unfold typesPhase at h
   obtain ⟨⟨d0, hd0, hc, hl⟩, halts⟩ := anyOrder_err _ d h
   constructor
   · obtain ⟨t, ht, hr⟩ := firstErrors_mem _ _ d0 hd0
-    have := vRoot_sound hfp s hpl hnd t ht d0 hr
+    have := vRoot_sound hfp s hnd t ht d0 hr
     simpa [Diag.viol, hc, hl] using this
   · intro w hw
     obtain ⟨e, he, rfl⟩ := halts w hw
     obtain ⟨t, ht, hr⟩ := firstErrors_mem _ _ e he
-    exact vRoot_sound hfp s hpl hnd t ht e hr
+    exact vRoot_sound hfp s hnd t ht e hr
 
 /-! ### `validate_messages` -/
 
@@ -603,7 +603,26 @@ theorem vLevelHeader_err (types : List Elem) (user : Path) (hdr : String) (requi
       simp only [hf, fail, Except.error.injEq] at h
       subst h; simp [Diag.viol, typePath, Elem.name]
 
-theorem vDataHeader_err (types : List Elem) (user : Path) (hdr : String) (d : Diag)
+theorem headerMember_good (types : List Elem) (hp : Path) (elems : List Elem) (name : String)
+    (h : headerMemberViols types hp elems name false = []) :
+    ∃ t ep, headerMemberType types hp elems name = .ok (t, ep) ∧ t.length = 1 ∧
+      (t.presence == Presence.constant) = false := by
+  unfold headerMemberViols at h
+  cases hm : headerMemberType types hp elems name with
+  | error v => simp [hm] at h
+  | ok x =>
+    obtain ⟨t, ep⟩ := x
+    simp only [hm, Bool.false_eq_true, ↓reduceIte] at h
+    have hl1 : t.length = 1 := by
+      by_cases h1 : t.length = 1
+      · exact h1
+      · simp [h1] at h
+    refine ⟨t, ep, rfl, hl1, ?_⟩
+    cases hx : (t.presence == Presence.constant) with
+    | false => rfl
+    | true => simp [hl1, hx] at h
+
+theorem vDataHeader_err (types : List Elem) (hsz : SizesAgree types) (user : Path) (hdr : String) (d : Diag)
     (h : vDataHeader types user hdr = .error d) : d.viol ∈ headerViols types user hdr ["length"] true := by
   unfold vDataHeader at h
   unfold headerViols
@@ -615,14 +634,16 @@ theorem vDataHeader_err (types : List Elem) (user : Path) (hdr : String) (d : Di
   | some e =>
     cases e with
     | composite n o elems a =>
+      have hc := findType_mem types hdr _ hf
       simp only [hf] at h ⊢
       simp only [List.flatMap_cons, List.flatMap_nil, List.append_nil, ↓reduceIte, List.mem_append]
-      rcases (bind_err _ _ d).mp h with h | ⟨_, _, h⟩
+      rcases (bind_err _ _ d).mp h with h | ⟨_, hlenok, h⟩
       · exact Or.inl (vLevelHeaderElement_err types _ elems "length" d h)
       · right
-        unfold headerMemberViols
         rcases (bind_err _ _ d).mp h with h | ⟨x, hx, h⟩
-        · rw [levelHeaderElement_err types _ elems "varData" d h]; simp
+        · left
+          unfold headerMemberViols
+          rw [levelHeaderElement_err types _ elems "varData" d h]; simp
         · obtain ⟨t, ep⟩ := x
           rw [levelHeaderElement_eq] at hx
           cases hm : headerMemberType types ["types", n] elems "varData" with
@@ -630,10 +651,33 @@ theorem vDataHeader_err (types : List Elem) (user : Path) (hdr : String) (d : Di
           | ok y =>
             simp only [hm, Except.ok.injEq] at hx
             subst hx
-            rw [need_err] at h
-            obtain ⟨h1, rfl⟩ := h
-            simp only [beq_eq_false_iff_ne, ne_eq] at h1
-            simp [h1, Diag.viol]
+            rw [need_bind_err] at h
+            rcases h with ⟨h1, rfl⟩ | ⟨_, h⟩
+            · left
+              unfold headerMemberViols
+              simp only [beq_eq_false_iff_ne, ne_eq] at h1
+              simp [hm, h1, Diag.viol]
+            · -- `validate_data_header_layout`
+              right
+              obtain ⟨lt, lp, hml, hl1, hnc⟩ :=
+                headerMember_good types _ elems "length" ((vLevelHeaderElement_ok types _ elems "length" _).mp hlenok)
+              rw [levelHeaderElement_eq, hml] at h
+              simp only [bind, Except.bind, need_err] at h
+              obtain ⟨hcond, rfl⟩ := h
+              have key := dataLayout_iff types hsz n o elems a hc lt lp hml hl1 hnc
+              have hne : dataLayoutViols types ["types", n] elems ≠ [] := by
+                intro hnil
+                obtain ⟨k1, k2⟩ := key.mpr hnil
+                simp [k1, k2] at hcond
+              unfold dataLayoutViols at hne ⊢
+              rw [hml] at hne ⊢
+              cases hcs : compositeSize types elems with
+              | none => simp [hcs] at hne
+              | some sz =>
+                simp only [hcs] at hne ⊢
+                by_cases heq : (some sz == primBytes lt.prim) = true
+                · simp [heq] at hne
+                · simp [heq, Diag.viol]
     | _ =>
       simp only [hf, fail, Except.error.injEq] at h
       subst h; simp [Diag.viol, typePath, Elem.name]
@@ -661,7 +705,7 @@ theorem fieldInfo_err (types : List Elem) (hnr : NoTopLevelRef types) (p : Path)
       | ref n ty o a => exact hnr n ty o a (findType_mem types _ _ hf)
       | _ => simp at h
 
-theorem vConstantField_err (hfp : FpAgree) (types : List Elem) (hpl : CharEnumsPlain types) (p : Path) (f : FieldDef)
+theorem vConstantField_err (hfp : FpAgree) (types : List Elem) (p : Path) (f : FieldDef)
     (d : Diag) (h : vConstantField types p f = .error d) : d.viol ∈ constFieldViols types p f := by
   unfold vConstantField at h
   unfold constFieldViols
@@ -684,7 +728,7 @@ theorem vConstantField_err (hfp : FpAgree) (types : List Elem) (hpl : CharEnumsP
         obtain ⟨n, enc, v⟩ := x
         simp only [hr, bind, Except.bind, need_err] at h
         obtain ⟨h2, rfl⟩ := h
-        rw [valueRefFits_eq hfp types hpl r n enc f.type v hr hp] at h2
+        rw [valueRefFits_eq hfp types r n enc f.type v hr hp] at h2
         simp [h2, Diag.viol]
   · simp only [hp, Bool.false_eq_true, ↓reduceIte, lookup_eq] at h ⊢
     cases hf : findType types f.type with
@@ -723,7 +767,7 @@ def LevelBad (types : List Elem) (l : LevelView) (w : Viol) : Prop :=
   (∃ d ∈ l.datas, symbolicName d.name = false ∧ w = (.invalidName, l.path ++ [d.name])) ∨
   w ∈ levelViols types l
 
-theorem vFields_err (hfp : FpAgree) (types : List Elem) (hpl : CharEnumsPlain types) (hnr : NoTopLevelRef types)
+theorem vFields_err (hfp : FpAgree) (types : List Elem) (hnr : NoTopLevelRef types)
     (hsz : SizesAgree types) (lp : Path) :
     ∀ (fields : List FieldDef) (cur : Nat) (d : Diag), vFields types lp cur fields = .error d →
       (∃ f ∈ fields, symbolicName f.name = false ∧ d.viol = (.invalidName, lp ++ [f.name])) ∨
@@ -750,7 +794,7 @@ theorem vFields_err (hfp : FpAgree) (types : List Elem) (hpl : CharEnumsPlain ty
           rcases (bind_err _ _ d).mp h with h | ⟨_, _, h⟩
           · exact Or.inr (Or.inl ⟨f, by simp, by
               simp only [fieldViols, g1, Bool.false_eq_true, ↓reduceIte, hc]
-              exact vConstantField_err hfp types hpl _ f d h⟩)
+              exact vConstantField_err hfp types _ f d h⟩)
           · rcases ih cur d h with ⟨f', hf', hh⟩ | ⟨f', hf', hh⟩ | hh
             · exact Or.inl ⟨f', by simp [hf'], hh⟩
             · exact Or.inr (Or.inl ⟨f', by simp [hf'], hh⟩)
@@ -788,7 +832,7 @@ theorem vFields_err (hfp : FpAgree) (types : List Elem) (hpl : CharEnumsPlain ty
               exact tailcase _ (by simp [ho]) h
 
 
-theorem vDatas_err (types : List Elem) (lp : Path) :
+theorem vDatas_err (types : List Elem) (hsz : SizesAgree types) (lp : Path) :
     ∀ (datas : List DataDef) (d : Diag), vDatas types lp datas = .error d →
       ∃ x ∈ datas, (symbolicName x.name = false ∧ d.viol = (.invalidName, lp ++ [x.name])) ∨
         d.viol ∈ headerViols types (lp ++ [x.name]) x.type ["length"] true := by
@@ -802,7 +846,7 @@ theorem vDatas_err (types : List Elem) (lp : Path) :
     rcases h with ⟨h1, rfl⟩ | ⟨_, h⟩
     · exact ⟨x, by simp, Or.inl ⟨h1, rfl⟩⟩
     · rcases (bind_err _ _ d).mp h with h | ⟨_, _, h⟩
-      · exact ⟨x, by simp, Or.inr (vDataHeader_err types _ _ d h)⟩
+      · exact ⟨x, by simp, Or.inr (vDataHeader_err types hsz _ _ d h)⟩
       · obtain ⟨y, hy, hh⟩ := ih d h
         exact ⟨y, by simp [hy], hh⟩
 
@@ -825,7 +869,7 @@ theorem blockLength_err (types : List Elem) (lp : Path) (bl : Option Nat) (field
     · simp [hlt] at h
 
 /-- the part of `validate_members` that concerns one level (not its sub-groups' bodies) -/
-theorem level_err (hfp : FpAgree) (types : List Elem) (hpl : CharEnumsPlain types) (hnr : NoTopLevelRef types)
+theorem level_err (hfp : FpAgree) (types : List Elem) (hnr : NoTopLevelRef types)
     (hsz : SizesAgree types) (lp : Path) (bl : Option Nat) (fields : List FieldDef) (groups : List GroupDef)
     (datas : List DataDef) (d : Diag) :
     (vFields types lp 0 fields = .error d → LevelBad types ⟨lp, bl, fields, groups, datas⟩ d.viol) ∧
@@ -836,7 +880,7 @@ theorem level_err (hfp : FpAgree) (types : List Elem) (hpl : CharEnumsPlain type
     (vDatas types lp datas = .error d → LevelBad types ⟨lp, bl, fields, groups, datas⟩ d.viol) := by
   refine ⟨?_, ?_, ?_⟩
   · intro h
-    rcases vFields_err hfp types hpl hnr hsz lp fields 0 d h with ⟨f, hf, hh⟩ | ⟨f, hf, hh⟩ | hh
+    rcases vFields_err hfp types hnr hsz lp fields 0 d h with ⟨f, hf, hh⟩ | ⟨f, hf, hh⟩ | hh
     · exact Or.inl ⟨f, hf, hh⟩
     · refine Or.inr (Or.inr (Or.inr ?_))
       unfold levelViols
@@ -847,13 +891,13 @@ theorem level_err (hfp : FpAgree) (types : List Elem) (hpl : CharEnumsPlain type
       simp only [List.mem_append]
       exact Or.inl (Or.inl (Or.inl (Or.inr hh)))
   · intro off hoff h
-    have hend := (vFields_ok hfp types hpl hsz lp fields 0 off hoff).2.2
+    have hend := (vFields_ok hfp types hsz lp fields 0 off hoff).2.2
     refine Or.inr (Or.inr (Or.inr ?_))
     unfold levelViols
     simp only [List.mem_append]
     exact Or.inl (Or.inl (Or.inr (blockLength_err types lp bl fields off hend d h)))
   · intro h
-    obtain ⟨x, hx, hh⟩ := vDatas_err types lp datas d h
+    obtain ⟨x, hx, hh⟩ := vDatas_err types hsz lp datas d h
     rcases hh with hh | hh
     · exact Or.inr (Or.inr (Or.inl ⟨x, hx, hh⟩))
     · refine Or.inr (Or.inr (Or.inr ?_))
@@ -862,9 +906,9 @@ theorem level_err (hfp : FpAgree) (types : List Elem) (hpl : CharEnumsPlain type
       exact Or.inr ⟨x, hx, hh⟩
 
 section LevelsSound
-variable (hfp : FpAgree) (types : List Elem) (hpl : CharEnumsPlain types) (hnr : NoTopLevelRef types)
+variable (hfp : FpAgree) (types : List Elem) (hnr : NoTopLevelRef types)
   (hsz : SizesAgree types)
-include hfp hpl hnr hsz
+include hfp hnr hsz
 
 mutual
   /-- an error inside a group: a rule of the group's own level or of a level below; the group's
@@ -881,7 +925,7 @@ mutual
       · rcases (bind_err _ _ d).mp h with h | ⟨_, _, h⟩
         · exact Or.inr (Or.inl (vLevelHeader_err types _ dim _ d h))
         · refine Or.inr (Or.inr ?_)
-          obtain ⟨e1, e2, e3⟩ := level_err hfp types hpl hnr hsz (lp ++ [n]) bl fields groups datas d
+          obtain ⟨e1, e2, e3⟩ := level_err hfp types hnr hsz (lp ++ [n]) bl fields groups datas d
           have hself : (⟨lp ++ [n], bl, fields, groups, datas⟩ : LevelView) ∈
               groupLevels lp (.mk n id dim bl fields groups datas a) := by simp [groupLevels]
           rcases (bind_err _ _ d).mp h with h | ⟨off, hoff, h⟩
@@ -924,7 +968,7 @@ theorem vMessage_err (m : MessageDef) (d : Diag) (h : vMessage types m = .error 
   rcases h with ⟨h1, rfl⟩ | ⟨_, h⟩
   · exact Or.inl ⟨h1, rfl⟩
   · right
-    obtain ⟨e1, e2, e3⟩ := level_err hfp types hpl hnr hsz (msgPath m) m.blockLength m.fields m.groups m.datas d
+    obtain ⟨e1, e2, e3⟩ := level_err hfp types hnr hsz (msgPath m) m.blockLength m.fields m.groups m.datas d
     have hself : (⟨msgPath m, m.blockLength, m.fields, m.groups, m.datas⟩ : LevelView) ∈ messageLevels m := by
       simp [messageLevels]
     rcases (bind_err _ _ d).mp h with h | ⟨off, hoff, h⟩
@@ -932,7 +976,7 @@ theorem vMessage_err (m : MessageDef) (d : Diag) (h : vMessage types m = .error 
     · rcases (bind_err _ _ d).mp h with h | ⟨_, _, h⟩
       · exact ⟨_, hself, e2 off hoff h⟩
       · rcases (bind_err _ _ d).mp h with h | ⟨_, _, h⟩
-        · rcases vGroups_err hfp types hpl hnr hsz m.groups (msgPath m) d h with ⟨g', hg', hh⟩ | ⟨l, hl, hh⟩
+        · rcases vGroups_err hfp types hnr hsz m.groups (msgPath m) d h with ⟨g', hg', hh⟩ | ⟨l, hl, hh⟩
           · refine ⟨_, hself, ?_⟩
             rcases hh with hh | hh
             · exact Or.inr (Or.inl ⟨g', hg', hh⟩)
@@ -946,11 +990,11 @@ theorem vMessage_err (m : MessageDef) (d : Diag) (h : vMessage types m = .error 
 end LevelsSound
 
 theorem levelBad_enforced (s : SchemaDef) (l : LevelView) (hl : l ∈ allLevels s) (w : Viol)
-    (h : LevelBad s.types l w) : w ∈ enforcedViolations s := by
+    (h : LevelBad s.types l w) : w ∈ violations s := by
   have hname : ∀ (n : String) (p : Path), (n, p) ∈ entityNames s → symbolicName n = false →
-      (DiagClass.invalidName, p) ∈ enforcedViolations s := by
+      (DiagClass.invalidName, p) ∈ violations s := by
     intro n p hm' hs
-    unfold enforcedViolations nameViols
+    unfold violations nameViols
     simp only [List.mem_append]
     refine Or.inl (Or.inl (Or.inl (Or.inl (Or.inr (Or.inl (List.mem_filterMap.mpr ⟨(n, p), hm', ?_⟩))))))
     simp [hs]
@@ -958,23 +1002,23 @@ theorem levelBad_enforced (s : SchemaDef) (l : LevelView) (hl : l ∈ allLevels 
   · exact hname _ _ (entityNames_field s l hl f hf) h1
   · exact hname _ _ (entityNames_group s l hl g hg) h1
   · exact hname _ _ (entityNames_data s l hl d hd) h1
-  · unfold enforcedViolations
+  · unfold violations
     simp only [List.mem_append]
     exact Or.inr (List.mem_flatMap.mpr ⟨l, hl, h⟩)
 
-theorem messagesPhase_sound (hfp : FpAgree) (s : SchemaDef) (hpl : CharEnumsPlain s.types)
+theorem messagesPhase_sound (hfp : FpAgree) (s : SchemaDef)
     (hnr : NoTopLevelRef s.types) (hsz : SizesAgree s.types) (d : Diag) (h : messagesPhase s = .error d) :
-    d.viol ∈ enforcedViolations s := by
+    d.viol ∈ violations s := by
   simp only [messagesPhase] at h
   rcases (bind_err _ _ d).mp h with h | ⟨_, _, h⟩
   · have := vLevelHeader_err s.types _ _ _ d h
-    unfold enforcedViolations
+    unfold violations
     simp only [List.mem_append]
     exact Or.inl (Or.inr this)
   · obtain ⟨m, hm, hmd⟩ := allOk_err _ _ d h
-    rcases vMessage_err hfp s.types hpl hnr hsz m d hmd with ⟨h1, hv⟩ | ⟨l, hl, hb⟩
+    rcases vMessage_err hfp s.types hnr hsz m d hmd with ⟨h1, hv⟩ | ⟨l, hl, hb⟩
     · rw [hv]
-      unfold enforcedViolations nameViols
+      unfold violations nameViols
       simp only [List.mem_append]
       refine Or.inl (Or.inl (Or.inl (Or.inl (Or.inr (Or.inl (List.mem_filterMap.mpr
         ⟨(m.name, msgPath m), entityNames_msg s m hm, ?_⟩))))))
